@@ -33,6 +33,8 @@ pub struct GRule
     pub garbage : bool,
     /* render the command as two script lines separated by a lone ';' */
     pub split : bool,
+    /* the command starts with a script line that writes nothing (a check, a clean-up): "vgen salt -- inputs ; ..." */
+    pub precheck : bool,
 }
 
 impl GRule
@@ -64,6 +66,13 @@ impl GRule
     /* the lines of the command section */
     pub fn command_lines(&self) -> Vec<String>
     {
+        if self.precheck
+        {
+            let mut t = self.step_tokens(&[]);
+            t.push(";".to_string());
+            t.extend(self.step_tokens(&self.outs));
+            return t;
+        }
         if self.split && self.outs.len() >= 2
         {
             let h = self.outs.len() / 2;
@@ -99,8 +108,12 @@ impl GRule
         format!("T[{}]S[{}]C[{}]", t.join("\u{1}"), s.join("\u{1}"), self.command_lines().join("\u{1}"))
     }
 
-    fn steps(&self) -> Vec<Vec<OutSpec>>
+    pub fn steps(&self) -> Vec<Vec<OutSpec>>
     {
+        if self.precheck
+        {
+            return vec![vec![], self.outs.clone()];
+        }
         if self.split && self.outs.len() >= 2
         {
             let h = self.outs.len() / 2;
